@@ -81,6 +81,14 @@ pub trait Vt: Sized {
     fn bump(&mut self, by: u32) {
         *self = Self::mk(self.tok() + by);
     }
+    /// the type has an "empty" shape that differs from the shape `mk` produces (None, an empty string):
+    /// clone_from between values of different shapes takes other paths than between values of one shape
+    const HOLLOW: bool = false;
+    /// puts the value into its empty shape (no-op for types without one)
+    fn hollow(&mut self) {}
+    fn is_hollow(&self) -> bool {
+        true
+    }
 }
 
 macro_rules! int_vt {
@@ -100,6 +108,42 @@ impl Vt for Option<u32> {
     fn tok(&self) -> u32 {
         self.unwrap_or(u32::MAX)
     }
+    const HOLLOW: bool = true;
+    fn hollow(&mut self) {
+        *self = None
+    }
+    fn is_hollow(&self) -> bool {
+        self.is_none()
+    }
+}
+/// an optional owned value: clone_from may reuse the target's allocation
+impl Vt for Option<String> {
+    fn mk(tok: u32) -> Self {
+        Some(format!("o{}", tok))
+    }
+    fn tok(&self) -> u32 {
+        self.as_ref().and_then(|s| s[1..].parse().ok()).unwrap_or(u32::MAX)
+    }
+    const HOLLOW: bool = true;
+    fn hollow(&mut self) {
+        *self = None
+    }
+    fn is_hollow(&self) -> bool {
+        self.is_none()
+    }
+}
+/// a float: formats treat it unlike the integers
+impl Vt for f64 {
+    fn mk(tok: u32) -> Self {
+        tok as f64 + 0.25
+    }
+    fn tok(&self) -> u32 {
+        if self.fract() == 0.25 {
+            *self as u32
+        } else {
+            u32::MAX
+        }
+    }
 }
 impl Vt for [u8; 3] {
     fn mk(tok: u32) -> Self {
@@ -114,7 +158,14 @@ impl Vt for String {
         format!("s{}", tok)
     }
     fn tok(&self) -> u32 {
-        self[1..].parse().unwrap_or(u32::MAX)
+        self.get(1..).and_then(|x| x.parse().ok()).unwrap_or(u32::MAX)
+    }
+    const HOLLOW: bool = true;
+    fn hollow(&mut self) {
+        self.clear()
+    }
+    fn is_hollow(&self) -> bool {
+        self.is_empty()
     }
 }
 
